@@ -179,6 +179,10 @@ class Kernel:
         # Files the task leaves in its output directory on success.
         if not p.foreign and p.status == 0:
             self._write_files(p, "ok")
+            if outcome.get("argsdir") and p.env.get("COND_OUT"):
+                # the command leaves DIRECTORIES with the reserved names behind: Conductor cannot write its records
+                for nm in ("args.json", "options.json"):
+                    os.makedirs(os.path.join(p.env["COND_OUT"], nm, "x"), exist_ok=True)
             if outcome.get("rmout") and p.env.get("COND_OUT"):
                 # the command exits 0 after having removed (or moved away) its own output directory
                 import shutil
